@@ -185,20 +185,25 @@ theorem _gauc_loop_eq (ref est : Mat) (tr : Bool) (w : Nat) (hlen : ref.length =
     have hkz : k < (ref.zip est).length := by simp [List.length_zip]; omega
     rw [List.range'_succ, List.drop_eq_getElem_cons hkz, List.zipIdx_cons, List.mapM_cons]
     unfold Mir.Gen.hierarchy._gauc_loop1
-    have hr : rowSlice ref k (slice2 (Int.toNat ((k : Int) - (w : Int))) (Nat.min ref.length (k + w)))
-        = .ok (pySlice ref[k] (k - w) (min ref.length (k + w))) := by
-      unfold rowSlice; rw [List.getElem?_eq_getElem hkr]
-      simp only [getSlice, slice2]; congr 2; omega
-    have he : rowSlice est k (slice2 (Int.toNat ((k : Int) - (w : Int))) (Nat.min ref.length (k + w)))
-        = .ok (pySlice est[k] (k - w) (min ref.length (k + w))) := by
-      unfold rowSlice; rw [List.getElem?_eq_getElem hke]
-      simp only [getSlice, slice2]; congr 2; omega
-    simp only [hr, he, ok_bind, _compare_frame_rankings_eq_model, concat, sliceTo, sliceFrom, List.getElem_zip]
+    -- the slice bounds / the query position up to the order of the operands of `min` (harmless rewrites of the source)
+    have e1 : Nat.min ref.length (k + w) = min ref.length (k + w) := rfl
+    have e1b : Nat.min (k + w) ref.length = min ref.length (k + w) := Nat.min_comm _ _
+    have e1c : Nat.min (w + k) ref.length = min ref.length (k + w) := by rw [Nat.add_comm w k]; exact Nat.min_comm _ _
+    have e1d : Nat.min ref.length (w + k) = min ref.length (k + w) := by rw [Nat.add_comm w k]
+    have e2 : Nat.min k w = min k w := rfl
+    have e2b : Nat.min w k = min k w := Nat.min_comm _ _
+    have e3 : Int.toNat ((k : Int) - (w : Int)) = k - w := by omega
+    have hr : ∀ s, rowSlice ref k s = .ok (getSlice ref[k] s) := by
+      intro s; unfold rowSlice; rw [List.getElem?_eq_getElem hkr]
+    have he : ∀ s, rowSlice est k s = .ok (getSlice est[k] s) := by
+      intro s; unfold rowSlice; rw [List.getElem?_eq_getElem hke]
+    simp only [hr, he, ok_bind, _compare_frame_rankings_eq_model, concat, sliceTo, sliceFrom, List.getElem_zip, getSlice,
+      slice2, e1, e1b, e1c, e1d, e2, e2b, e3]
     have hq : compareFrameRankings
-        (List.take (Nat.min k w) (pySlice ref[k] (k - w) (min ref.length (k + w))) ++
-          List.drop (Nat.min k w + 1) (pySlice ref[k] (k - w) (min ref.length (k + w))))
-        (List.take (Nat.min k w) (pySlice est[k] (k - w) (min ref.length (k + w))) ++
-          List.drop (Nat.min k w + 1) (pySlice est[k] (k - w) (min ref.length (k + w)))) tr
+        (List.take (min k w) (pySlice ref[k] (k - w) (min ref.length (k + w))) ++
+          List.drop (min k w + 1) (pySlice ref[k] (k - w) (min ref.length (k + w))))
+        (List.take (min k w) (pySlice est[k] (k - w) (min ref.length (k + w))) ++
+          List.drop (min k w + 1) (pySlice est[k] (k - w) (min ref.length (k + w)))) tr
         = gaucQuery ref.length w tr k ref[k] est[k] := rfl
     rw [hq]
     cases hg : gaucQuery ref.length w tr k ref[k] est[k] with
